@@ -213,7 +213,7 @@ def rule_backoff(ctx):
     ups = q.assigns(ctx, fo, 'self.url_index')
     ok3 = len(ups) == 1 and norm(ups[0].value) == '(self.url_index + 1) % len(self.urls)'
     conds = pr.control_conditions(ups[0], fo.node) if ups else []
-    ok3 = ok3 and len(conds) == 1 and norm(conds[0][0]) == 'len(self.urls) > 1' and conds[0][1]
+    ok3 = ok3 and len(conds) == 1 and q.cmp_matches(ctx, fo, conds[0][0], 'len(self.urls) > 1') and conds[0][1]
     rets = {norm(r.value) for r in fo.own_nodes() if isinstance(r, ast.Return)}
     ctx.check(ok3 and rets == {'True', 'False'}, 'C18.BACKOFF', ctx.key(fo, None, 'round robin'),
               'failover() moves to the next URL round-robin iff there is more than one, and says whether it did',
